@@ -225,17 +225,17 @@ def r1_r2_r3(run, w):
       wit = cfg.describe_path(p1 + p2[1:])
     run.ob(R1, fi.qualname, "mutation paired with undo record of kind %s" % "/".join(primary),
            "every normal path that mutates state also appends the primary inverse",
-           bad is None, witness=wit, fi=fi,
+           bad is None, witness=wit, fi=fi, missing=not prim_nodes,
            node=cfg.nodes[bad].stmt if bad is not None else None)
     # data-restoring extras exist where the action destroys data
     if extras:
       run.ob(R2, fi.qualname, "data-restoring undo of kind %s" % "/".join(extras),
              "an action that destroys cell data records an undo that restores it",
-             bool(extra_nodes), fi=fi)
+             bool(extra_nodes), fi=fi, missing=True)
     if an == "RemoveColumn":
       run.ob(R2, fi.qualname, "summary.add_changes for formula columns",
              "values of a removed formula column are recorded in the calc summary",
-             bool(sum_nodes), fi=fi)
+             bool(sum_nodes), fi=fi, missing=True)
     # extras precede primary
     for x in sorted(extra_nodes):
       before = not (cfg.reach_after(prim_nodes) & {x})
@@ -564,7 +564,8 @@ def r5_rollback_trim(run, w):
       and all(cfg.dominated_by(a, slice_nodes) for a in apply_nodes) \
       and all(cfg.dominated_by(d, apply_nodes) for d in del_nodes)
   run.ob(R5, ut.qualname, "slice -> ApplyUndoActions -> del",
-         "undo actions are captured, replayed, and only then trimmed", ok, fi=ut.fi)
+         "undo actions are captured, replayed, and only then trimmed", ok, fi=ut.fi,
+         missing=not slice_nodes or not apply_nodes)
 
 
 def r6_modify_reorder(run, w):
@@ -590,7 +591,7 @@ def r6_modify_reorder(run, w):
                    completed=True)
       wit = cfg.describe_path(p)
     run.ob(R6, fn.qualname, short(n.stmt), "popped undo action is re-appended on every path, "
-           "exceptional ones included", ok, witness=wit, fi=fn.fi, node=n.stmt)
+           "exceptional ones included", ok, witness=wit, fi=fn.fi, node=n.stmt, missing=not apps)
     # dominated by assert isinstance(undo[-1], actions.ModifyColumn)
     asserts = set()
     for a in cfg.nodes:
